@@ -120,7 +120,7 @@ def drive(prop, tier, hseed, n_examples, stats, wall, strategy=None, check=None,
     strategy = strategy if strategy is not None else prop.strategy(tier)
     check = check if check is not None else prop.check
     if shrink_budget is None:
-        shrink_budget = 45.0 if tier == "quick" else 240.0
+        shrink_budget = getattr(prop, "SHRINK_BUDGET", None) or (45.0 if tier == "quick" else 240.0)
     t0 = time.time()
     st = {"first_fail": None, "seen": set(), "last": None}
 
@@ -200,9 +200,10 @@ def _shard_main(args):
         suppress = set()
         rounds = 0
         n = n_examples
-        while rounds < 3 and n > 0:
+        while rounds < getattr(prop, "MAX_ROUNDS", 3) and n > 0:
+            strat = prop.strategy_for_shard(tier, k) if hasattr(prop, "strategy_for_shard") else None
             f = drive(prop, tier, shard_seed(seed, prop.ID, k) + rounds, n, stats, wall,
-                      suppress=tuple(suppress))
+                      strategy=strat, suppress=tuple(suppress))
             stats.frozen = False
             if f is None:
                 break
@@ -364,7 +365,8 @@ def main(argv=None):
         return 2
     failures.extend(reg_fail)
 
-    jobs = [(modname, tier, seed, k, examples, wall) for k in range(shards)]
+    per_shard = prop.examples_for_shard if hasattr(prop, "examples_for_shard") else (lambda t, k: examples)
+    jobs = [(modname, tier, seed, k, a.examples or per_shard(tier, k), wall) for k in range(shards)]
     ctx = mp.get_context("fork")
     with ctx.Pool(min(shards, 16)) as pool:
         results = pool.map(_shard_main, jobs, chunksize=1)
